@@ -34,11 +34,13 @@ def ensure_extractor():
     return exe
 
 
-def extract(bdir, probes=False, name="fb_verif", probe_prop=None, shard=None):
+def extract(bdir, probes=False, name="fb_verif", probe_prop=None, shard=None, assume_fns=()):
     exe = ensure_extractor()
     out = os.path.join(bdir, name + ".rs")
     mp = os.path.join(bdir, name + ".map.json")
     cmd = [exe, "--repo", REPO, "--verif", VERIF, "--out", out, "--map", mp]
+    for k in assume_fns:
+        cmd += ["--assume-fn", k]
     if probes:
         cmd.append("--probes")
         if probe_prop:
